@@ -2,6 +2,7 @@ import CssVerif.Lemmas.Media
 import CssVerif.Lemmas.MediaSetType
 import CssVerif.Lemmas.MediaSetTypeReparse
 import CssVerif.Lemmas.MediaSimL
+import CssVerif.Lemmas.MediaSimFuel
 /-!
 # C17 — media lists are canonical ordered sets; media queries survive intact
 
@@ -297,6 +298,15 @@ theorem engine_query_keeps_every_token (toks : List Tok) (hd : ∀ t ∈ toks, M
 theorem engine_list_canonical (ft : Bool) (toks : List Tok) (items : List LItem)
     (_h : ProdEngine.engineL Gen.C17Grammar.mediaList Gen.C17Grammar.mediaQueryPartof ft toks = .ok items) :
     CanonV (view (canon items)) := canon_canonV items
+
+/-- the fuel of the engine model suffices (`noFuel`): on the media grammars the engine answers `unsupported` only
+when the input holds a token outside the modelled domain — an EOF token or a colour function — never because one of
+its fuelled loops (`mainLoop`, `descend`, `seqLoop`, `endLoop`) ran dry -/
+theorem engine_fuel_suffices (ft : Bool) (toks : List Tok) (hd : ∀ t ∈ toks, MediaSim.Dom t) :
+    (ProdEngine.engineL Gen.C17Grammar.mediaList Gen.C17Grammar.mediaQueryPartof ft toks = .unsupported →
+      ∃ t ∈ toks, MediaSim.Outside t) ∧
+    (ProdEngine.engineQ Gen.C17Grammar.mediaQueryAlone toks = .unsupported → ∃ t ∈ toks, MediaSim.Outside t) :=
+  ⟨MediaSim.engineL_fuel_suffices ft toks hd, MediaSim.engineQ_fuel_suffices toks hd⟩
 
 /-- the token domain is inhabited by real inputs and the engine accepts them: `tv and (color), print` -/
 example :
